@@ -302,6 +302,11 @@ def gen_C10(tier, seed, unit, nunits):
         for a in vals:
             for op in ('encode', 'int_encode', 'encoded_size', 'to_le_bytes', 'to_be_bytes', 'to_ne_bytes', 'bits_roundtrip', 'wrapping_bits'):
                 out.append(req(op, s, n, f, a))
+            # every way the codec hands out a value's encoding (a hand-written Encode can get one of them wrong: seed s40b)
+            out.append(req(rng.choice(['encode_using', 'encode_to', 'encode_ref', 'encode_pair', 'encode_size_hint_ok']), s, n, f, a))
+            if n == 8 or len(out) % 7 == 0:
+                for op in ('encode_using', 'encode_to', 'encode_ref', 'encode_pair'):
+                    out.append(req(op, s, n, f, a))
             h = le_hex(n, a)
             out.append(req('decode', s, n, f, h))
             out.append(req('from_le_bytes', s, n, f, h))
